@@ -146,8 +146,29 @@ func (in *esInterp) resolveDataset(kind string, arg int) (string, error) {
 			return meta, nil
 		}
 		src := filepath.Dir(esShippedPaths()[0])
-		if err := c09WriteReplicatedDataset(src, dst, arg); err != nil {
+		copies := arg
+		if arg == 64 {
+			copies = 5 // 65 actions, one Wetland row dropped below: exactly 64 actions = one full archive word
+		}
+		if err := c09WriteReplicatedDataset(src, dst, copies); err != nil {
 			return "", err
+		}
+		if arg == 64 {
+			actionsFile := filepath.Join(dst, "ValidActions.csv")
+			b, err := os.ReadFile(actionsFile)
+			if err != nil {
+				return "", err
+			}
+			lines := strings.Split(strings.TrimRight(string(b), "\n"), "\n")
+			for i := len(lines) - 1; i > 0; i-- {
+				if strings.Contains(lines[i], ",Wetland,") {
+					lines = append(lines[:i], lines[i+1:]...)
+					break
+				}
+			}
+			if err := os.WriteFile(actionsFile, []byte(strings.Join(lines, "\n")+"\n"), 0o644); err != nil {
+				return "", err
+			}
 		}
 		return meta, nil
 	}
@@ -1256,7 +1277,7 @@ func suiteEngineSummaries(c *Ctx) {
 		arg  int
 	}
 	shipped := []dsPick{{"shipped", 0}, {"shipped", 1}, {"shipped", 2}}
-	big := []dsPick{{"replicated", 4}, {"replicated", 5}, {"replicated", 6}}
+	big := []dsPick{{"replicated", 4}, {"replicated", 64}, {"replicated", 5}, {"replicated", 6}}
 
 	caseNo := 0
 	mine := func() bool { caseNo++; return caseNo%c.Shards == c.Shard }
